@@ -2,6 +2,7 @@ import PsyVerif.Model.LoopTrans
 import PsyVerif.Lemmas.MiniFSem
 import PsyVerif.Lemmas.LoopTransChunk
 import PsyVerif.Lemmas.LoopTransFuse
+import PsyVerif.Lemmas.LoopTransHoist
 /-! # C05 — Accepted loop transformations preserve serial semantics
 
 Models: `PsyVerif/Model/LoopTrans.lean` (`chunkValidate/chunkApply`, `fuseValidate/fuseApply`,
@@ -82,6 +83,22 @@ def FuseIndep (t : FuseTarget) : Prop :=
   (∀ x ∈ wVars t.l2.body, x ∉ rVars t.l1.body ∧ x ∉ wVars t.l1.body)
 
 instance (t : FuseTarget) : Decidable (FuseIndep t) := by unfold FuseIndep; exact inferInstance
+
+theorem loop_body_congr (v : Nat) (lo hi st : Expr) {b b' : Stmt} (h : ∀ τ, exec b τ = exec b' τ) (σ : Store) :
+    exec (.loop v lo hi st b) σ = exec (.loop v lo hi st b') σ := by
+  show runIters (exec b) _ _ _ _ _ _ = runIters (exec b') _ _ _ _ _ _
+  rw [funext h]
+
+/-- side condition of the hoisting theorem — the variable-level content of
+`HoistTrans._validate_dependencies`: the statement assigns `x`, does not read it, `x` is not the
+loop variable, not used in the loop header, not accessed before the statement and not written
+after it, and nothing the statement reads is written in the loop -/
+def HoistSafe (t : HoistTarget) (x : Nat) : Prop :=
+  assignedVar t.s = some x ∧ x ∉ rVars t.s ∧ x ≠ t.v ∧ x ∉ eVars t.lo ++ eVars t.hi ++ eVars t.st ∧
+  x ∉ rVars (seqs t.pre) ++ wVars (seqs t.pre) ∧ x ∉ wVars (seqs t.post) ∧
+  ∀ r ∈ rVars t.s, r ≠ t.v ∧ r ∉ wVars (seqs t.pre) ∧ r ∉ wVars (seqs t.post)
+
+instance (t : HoistTarget) (x : Nat) : Decidable (HoistSafe t x) := by unfold HoistSafe; exact inferInstance
 
 /-! ## The property -/
 
@@ -323,6 +340,39 @@ theorem C05_hoist_zero_trip_counterexample :
 
 theorem C05_hoist_statement_false : ¬ C05_hoist_statement := fun h =>
   C05_hoist_zero_trip_counterexample.2 (h hoistZeroWitness C05_hoist_zero_trip_counterexample.1)
+
+/-- **Hoisting is sound when the loop runs at least once**: exact store equality for every loop
+header, every surrounding statements and every store with a positive trip count.  Missing
+parts: zero-trip loops (refuted by `C05_hoist_zero_trip_counterexample`; `HoistTrans` has no
+trip-count test); `HoistSafe` is stated directly and is not derived from `hoistValidate` inside
+Lean (the generated-case correspondence plus execution oracle cover that link). -/
+theorem C05_hoist_sound_partial (t : HoistTarget) (_hacc : hoistValidate t = .ok ()) (x : Nat)
+    (hs : HoistSafe t x) (σ : Store)
+    (hn : 0 < trip (eval t.lo σ) (eval t.hi σ) (eval t.st σ)) :
+    exec (hoistApply t) σ = exec t.original σ := by
+  obtain ⟨hx, hxr, hxv, hxb, hxp, hxq, hR⟩ := hs
+  simp only [List.mem_append, not_or, eVars_eq, rVars_eq, wVars_eq] at hxr hxb hxp hxq hR
+  have h1 : exec t.original σ = exec (.loop t.v t.lo t.hi t.st (.seq (seqs t.pre) (.seq t.s (seqs t.post)))) σ := by
+    apply loop_body_congr
+    intro τ
+    rw [exec_seqs_append, exec_seqs_cons]
+    rfl
+  have h2 : exec (hoistApply t) σ
+      = exec (.seq t.s (.loop t.v t.lo t.hi t.st (.seq (seqs t.pre) (seqs t.post)))) σ := by
+    show exec (.loop t.v t.lo t.hi t.st (seqs (t.pre ++ t.post))) (exec t.s σ) = _
+    apply loop_body_congr
+    intro τ
+    rw [exec_seqs_append]
+    rfl
+  rw [h1, h2]
+  exact (hoist_sound_core t.v x t.lo t.hi t.st (seqs t.pre) t.s (seqs t.post) hx hxr hxv
+    ⟨hxb.1.1, hxb.1.2, hxb.2⟩ hxp hxq hR σ hn).symm
+
+/-- non-vacuity: `do i = 1, n ; b(i) = 1 ; t = s0 + 2 ; a(i) = t` is accepted and safe -/
+example :
+    let t : HoistTarget := ⟨0, .lit 1, .var 5, .lit 1, [.store1 3 (.var 0) (.lit 1)],
+      .assign 2 (.bin .add (.var 4) (.lit 2)), [.store1 1 (.var 0) (.var 2)]⟩
+    hoistValidate t = .ok () ∧ HoistSafe t 2 := by decide
 
 example : hoistValidate ⟨0, .lit 1, .lit 5, .lit 1, [], .assign 2 (.var 0), []⟩ = .error .hoistReadsWritten := by decide
 example : hoistValidate ⟨0, .lit 1, .lit 5, .lit 1, [.store1 1 (.var 0) (.var 2)], .assign 2 (.lit 1), []⟩
